@@ -334,6 +334,8 @@ class Interp:
                     return self.real(v, src) if v.kind == 'dim' else v
                 raise TranslateError('unsupported tensor literal ' + src)
             if short == 'linspace':
+                if any(k.arg not in ('steps', 'num', 'dtype', 'device') for k in node.keywords) or len(node.args) > 3:
+                    raise TranslateError('unsupported linspace arguments in ' + src)
                 lo, hi = self.real(self.ev(node.args[0]), src), self.real(self.ev(node.args[1]), src)
                 cnt = self.ev(self.arg(node, 2, 'steps') or self.arg(node, 2, 'num'))
                 if lo.shape is not None or hi.shape is not None:
@@ -342,7 +344,7 @@ class Interp:
                     raise TranslateError('linspace count is not a grid side in ' + src)
                 return V('ax', 'linspace %s %s %s {idx}' % (lo.term, hi.term, cnt.term), size=cnt.term)
             if short == 'meshgrid':
-                if len(node.args) != 2:
+                if len(node.args) != 2 or any(k.arg != 'indexing' for k in node.keywords):
                     raise TranslateError('unsupported meshgrid ' + src)
                 a, b = self.ev(node.args[0]), self.ev(node.args[1])
                 if a.kind != 'ax' or b.kind != 'ax':
@@ -588,8 +590,20 @@ def run_job(j, registry):
     it = Interp(mod, fn, env, registry, stop_at_fft=j['target'] is not None)
     res = it.block(fn.body)
     if j['target'] is not None:
+        if res != 'stop':
+            raise TranslateError('%s: no FFT statement found after the kernel construction' % j['py'])
         if j['target'] not in it.env:
             raise TranslateError('%s: variable %s is not assigned before the FFT' % (j['py'], j['target']))
+        seen_fft = False
+        for st in fn.body:
+            if not seen_fft:
+                seen_fft = '.fft.' in ast.unparse(st) and not (isinstance(st, ast.Expr) and isinstance(st.value, ast.Constant))
+                if not seen_fft:
+                    continue
+                # the first FFT statement itself may read the kernel but must not rebind it
+            for sub in ast.walk(st):
+                if isinstance(sub, ast.Name) and sub.id == j['target'] and isinstance(sub.ctx, (ast.Store, ast.Del)):
+                    raise TranslateError('%s: %s is modified after the FFT calls start' % (j['py'], j['target']))
         res = it.env[j['target']]
     elif res is None or isinstance(res, str):
         raise TranslateError('%s: no return statement' % j['py'])
